@@ -133,7 +133,12 @@ def histories(draw):
         elif kind == "clone":
             sv = [s for s in U[m] if s["op"] == "sasview"]
             if sv:
-                steps.append(dict(draw(st.sampled_from(sv)), clone=True))
+                # clone, then work on one object and re-evaluate the other WITHOUT setting anything on it
+                steps.append(dict(draw(st.sampled_from(sv)), target="a"))
+                steps.append(dict(draw(st.sampled_from(sv)), clone=True, target=draw(st.sampled_from(["a", "b"]))))
+                for _k in range(draw(st.integers(1, 3))):
+                    steps.append(dict(draw(st.sampled_from(sv)), target=draw(st.sampled_from(["a", "b"])),
+                                      noset=draw(st.booleans())))
         else:
             steps.append({"op": kind, "model": m})
     return {"steps": steps}
@@ -161,7 +166,7 @@ def run_driver(steps):
 
 
 def request_key(step):
-    return {k: v for k, v in step.items() if k not in ("clone", "fresh", "empty_mesh")}
+    return {k: v for k, v in step.items() if k not in ("clone", "fresh", "empty_mesh", "target", "noset")}
 
 
 def oracle(step):
@@ -188,8 +193,23 @@ def check_history(case, rec):
     seen = {}
     nontrivial = False
     last_eval = None
+    sv_state = {}       # (model, target) -> last request whose parameters were set on that object
     for r in out:
         step = steps[r["i"]]
+        if step.get("op") == "sasview" and not r.get("repeat_of"):
+            tgt = r.get("target", "a")
+            if step.get("clone"):
+                sv_state[(step["model"], "b")] = sv_state.get((step["model"], "a"))
+            if step.get("noset"):
+                prev_req = sv_state.get((step["model"], tgt))
+                if prev_req is None:
+                    continue
+                # evaluating an object nobody touched since: the answer is its own last request
+                step = dict(prev_req, q=step.get("q"), clone=False)
+                step.pop("noset", None)
+                rec.cls("evaluate-untouched-object")
+            else:
+                sv_state[(step["model"], tgt)] = dict(step)
         if r.get("repeat_of"):
             step = last_eval
             rec.cls("repeat")
